@@ -33,9 +33,11 @@ def _fn(wf, name, fn, chaos, in_ports: dict[str, Port], out_name="out", fail_tag
 
 
 def build(wf: Workflow, blocks: list[dict], chaos: Chaos | None, *, workdir: str | None = None, log=None,
-          fail_plan: dict | None = None, fail_mode: str = "status", faults: dict | None = None) -> Built:
+          fail_plan: dict | None = None, fail_mode: str = "status", faults: dict | None = None, durations=None) -> Built:
     """``fail_plan``: {"<block index>": {"tag": n_failures}} for exec blocks (job name = step name/tag).
-    ``faults``: {"<block index>": [tags]} for map / zip / cond blocks: the block's step raises on these tags."""
+    ``faults``: {"<block index>": [tags]} for map / zip / cond blocks: the block's step raises on these tags;
+    for loop blocks the tags are iteration tags (instance tag + "." + iteration) at which the body raises.
+    ``durations``: per-job durations (loop turns) of exec blocks, consumed cyclically in job-start order."""
     faults = faults or {}
     from vf.engine.harness import ExecLog, exec_pipeline
 
@@ -88,14 +90,14 @@ def build(wf: Workflow, blocks: list[dict], chaos: Chaos | None, *, workdir: str
             cond.add_skip_port("x", out)
             P[b["out"]] = out
         elif op == "loop":
-            P[b["out"]] = _build_loop(wf, name, P[b["src"]], b["m"], b["method"], chaos)
+            P[b["out"]] = _build_loop(wf, name, P[b["src"]], b["m"], b["method"], chaos, body_fail_tags=faults.get(str(n), ()))
         elif op == "cross":
             P[b["out"]] = _build_cross(wf, name, P[b["srcs"][0]], P[b["srcs"][1]], b["mode"], chaos)
         elif op == "exec":
             plan = {f"{name}/{tag}": k for tag, k in (fail_plan or {}).get(str(n), {}).items()}
             out, ex, sched = exec_pipeline(
                 wf, name, {"x": P[b["src"]]}, lambda d: progs.exec_fn(d["x"]), workdir, chaos=chaos, log=b_.log,
-                fail_plan=plan, mode=fail_mode,
+                fail_plan=plan, mode=fail_mode, durations=durations,
             )
             b_.exec_steps[n] = (ex, sched)
             P[b["out"]] = out
@@ -104,7 +106,7 @@ def build(wf: Workflow, blocks: list[dict], chaos: Chaos | None, *, workdir: str
     return b_
 
 
-def _build_loop(wf: Workflow, name: str, in_port: Port, m: int, method: str, chaos) -> Port:
+def _build_loop(wf: Workflow, name: str, in_port: Port, m: int, method: str, chaos, body_fail_tags=()) -> Port:
     """forwarder -> LoopCombinatorStep -> loop-when -> body -> {output forwarder -> loop output step,
     back-propagation forwarder -> combinator input}; LoopTerminationCombinator feeds the combinator's
     input port — wired as streamflow/cwl/translator.py wires CWL loops."""
@@ -120,7 +122,7 @@ def _build_loop(wf: Workflow, name: str, in_port: Port, m: int, method: str, cha
     cond.add_input_port("x", p_c)
     p_body_in = wf.create_port()
     cond.add_output_port("x", p_body_in)
-    p_body_out = _fn(wf, name + "/body", lambda d: {"x": progs.loop_body(d["x"])}, chaos, {"x": p_body_in}, out_name="x")
+    p_body_out = _fn(wf, name + "/body", lambda d: {"x": progs.loop_body(d["x"])}, chaos, {"x": p_body_in}, out_name="x", fail_tags=body_fail_tags)
     term_comb = LoopTerminationCombinator(workflow=wf, name=name + "-loop-termination-combinator")
     term = wf.create_step(CombinatorStep, name=name + "-loop-terminator", combinator=term_comb)
     term.add_output_port("x", p_fwd)
